@@ -52,6 +52,8 @@ MAP = [
  ("parentheses around quotient factors", ["C03"]),
  ("insertion order of the phase map", ["C15"]),
  ("default successor or an initial phase", ["C10"]),
+ ("parentheses of nested sums and products", ["C01", "C03"]),
+ ("add the terms of a sum differently", ["C01"]),
 ]
 def main():
     log = subprocess.run(["git", "-C", "/repo", "log", "--reverse", "--format=%h %s"],
